@@ -14,6 +14,11 @@ pub struct Faults {
     pub get_fail: Option<u64>,
     /// every PUT of an object whose path ends with this text answers 500 (one object is unwritable, the others are fine)
     pub put_fail_suffix: Option<String>,
+    /// status of the injected GET failure (500 is retried by the SDK itself, 403 is not); 0 = 500
+    pub get_fail_status: u16,
+    /// ListObjectsV2 answers at most this many keys per request and marks the answer truncated (S3 itself stops at
+    /// 1000 and may always answer fewer); 0 = 1000
+    pub list_page: usize,
 }
 
 pub struct Stub {
@@ -90,15 +95,26 @@ impl Stub {
                     let prefix = query.split('&').find_map(|kv| kv.strip_prefix("prefix=")).map(pct_decode).unwrap_or_default();
                     let bucket = path.trim_matches('/').to_string();
                     let store = o.lock().unwrap();
+                    let token = query.split('&').find_map(|kv| kv.strip_prefix("continuation-token=")).map(pct_decode);
+                    let page = { let lp = f.lock().unwrap().list_page; if lp == 0 { 1000 } else { lp } };
+                    let mut rels: Vec<(String, usize)> = store.iter().map(|(k, v)| (k.trim_start_matches('/').strip_prefix(&format!("{}/", bucket)).unwrap_or(k).to_string(), v.len())).filter(|(rel, _)| rel.starts_with(&prefix)).collect();
+                    rels.sort();
+                    if let Some(t) = token.as_ref() {
+                        rels.retain(|(rel, _)| rel > t);
+                    }
+                    let truncated = rels.len() > page;
+                    rels.truncate(page);
                     let mut xml = String::from("<?xml version=\"1.0\" encoding=\"UTF-8\"?><ListBucketResult xmlns=\"http://s3.amazonaws.com/doc/2006-03-01/\">");
-                    xml.push_str(&format!("<Name>{}</Name><Prefix>{}</Prefix><MaxKeys>1000</MaxKeys><IsTruncated>false</IsTruncated>", xml_escape(&bucket), xml_escape(&prefix)));
-                    let mut count = 0;
-                    for (k, v) in store.iter() {
-                        let rel = k.trim_start_matches('/').strip_prefix(&format!("{}/", bucket)).unwrap_or(k).to_string();
-                        if rel.starts_with(&prefix) {
-                            count += 1;
-                            xml.push_str(&format!("<Contents><Key>{}</Key><Size>{}</Size><StorageClass>STANDARD</StorageClass></Contents>", xml_escape(&rel), v.len()));
-                        }
+                    xml.push_str(&format!("<Name>{}</Name><Prefix>{}</Prefix><MaxKeys>1000</MaxKeys><IsTruncated>{}</IsTruncated>", xml_escape(&bucket), xml_escape(&prefix), truncated));
+                    if let Some(t) = token.as_ref() {
+                        xml.push_str(&format!("<ContinuationToken>{}</ContinuationToken>", xml_escape(t)));
+                    }
+                    if truncated {
+                        xml.push_str(&format!("<NextContinuationToken>{}</NextContinuationToken>", xml_escape(&rels.last().unwrap().0)));
+                    }
+                    let count = rels.len();
+                    for (rel, len) in rels.iter() {
+                        xml.push_str(&format!("<Contents><Key>{}</Key><Size>{}</Size><StorageClass>STANDARD</StorageClass></Contents>", xml_escape(rel), len));
                     }
                     xml.push_str(&format!("<KeyCount>{}</KeyCount></ListBucketResult>", count));
                     let _ = rq.respond(tiny_http::Response::from_string(xml).with_header(tiny_http::Header::from_bytes(&b"Content-Type"[..], &b"application/xml"[..]).unwrap()));
@@ -107,7 +123,12 @@ impl Stub {
                     let inject = { f.lock().unwrap().get_fail.map(|k| n == k).unwrap_or(false) };
                     if inject {
                         fg.fetch_add(1, Ordering::SeqCst);
-                        let _ = rq.respond(fail500());
+                        let status = f.lock().unwrap().get_fail_status;
+                        if status == 403 {
+                            let _ = rq.respond(tiny_http::Response::from_string("<Error><Code>AccessDenied</Code><Message>injected</Message></Error>").with_status_code(403));
+                        } else {
+                            let _ = rq.respond(fail500());
+                        }
                         continue;
                     }
                     let body = o.lock().unwrap().get(&path).cloned();
